@@ -70,7 +70,7 @@ fn cmd_run(a: &[String]) -> i32 {
     let rep = ctx.report.lock().unwrap();
     for (sig, (n, ex)) in rep.known_hits.iter() {
         let what = ctx.known.open.iter().find(|k| k.property == prop && &k.sig == sig).map(|k| k.what.clone()).unwrap_or_default();
-        println!("KNOWN-FINDING: property={} sig={} hits={} {} (e.g. {})", prop, sig, n, what, engine::truncate(ex, 300));
+        println!("KNOWN-FINDING: property={} sig={} hits={} {} (e.g. {})", prop, sig, n, engine::truncate(&what, 260), engine::truncate(ex, 160));
     }
     let partial = serde_json::json!({
         "property": prop,
